@@ -192,6 +192,12 @@ class TuaProbe:
                 raise Violation(
                     f"C10/tua-zero-acquire-fails/{self.cname}/{_position(self.info, c, now_ns)}",
                     f"at t={now_ns}ns ({where}) time_until_available returned ZERO but try_acquire at the same instant was denied")
+            # ... and it must not depend on time_until_available having refreshed the state first
+            if not _call(clone(policy).try_acquire, now):
+                raise Violation(
+                    f"C10/tua-zero-acquire-fails/{self.cname}/{_position(self.info, c, now_ns)}-on-untouched-state",
+                    f"at t={now_ns}ns ({where}) time_until_available returned ZERO, but try_acquire on the same state "
+                    f"(without the refresh time_until_available performed) is denied")
             return 0
         self.n_pos += 1
         if wn == 1:
@@ -228,6 +234,14 @@ class TuaProbe:
                         f"waiting from t={now_ns}ns ({where}) for the returned durations reaches t={t}ns where "
                         f"time_until_available is ZERO but try_acquire is denied (a poll re-arms at now+0 forever)")
                 break
+            if steps >= 1:
+                # a positive answer at an instant reached by waiting must be truthful there too
+                self.samples += 1
+                if _call(clone(c3).try_acquire, Instant(t)):
+                    raise Violation(
+                        f"C10/acquire-before-wait-elapsed/{self.cname}/at-now-after-waiting",
+                        f"after waiting from t={now_ns}ns to t={t}ns time_until_available returns {wi}ns although "
+                        f"try_acquire at t={t}ns succeeds")
             steps += 1
             if steps > MAX_WAIT_STEPS:
                 raise Violation(
@@ -278,7 +292,7 @@ def bound_sliding(ts: list[int], win_ns: int, n: int):
     return None
 
 
-def bound_fixed(ts: list[int], win_ns: int, n: int):
+def bound_fixed(ts: list[int], win_ns: int, n: int, two_n: bool = True):
     """<= N per aligned window [kW,(k+1)W), where an admission exactly on a
     boundary instant may be attributed to either adjacent window (weaker
     reading: the float window size is ambiguous by < 1 ns at the boundary);
@@ -305,7 +319,7 @@ def bound_fixed(ts: list[int], win_ns: int, n: int):
             else:
                 carried[k + 1] = b
     m = 2 * n
-    for i in range(len(ts) - m):
+    for i in range(len(ts) - m if two_n else 0):
         if ts[i + m] - ts[i] < win_ns:
             return ("two-n", f"{m + 1} admissions within [{ts[i]}ns, {ts[i + m]}ns], a span shorter than one "
                     f"window ({win_ns}ns); bound 2N = {m}")
